@@ -156,6 +156,8 @@ impl<'store> Transposable<'store> for ResultTextSelectionSet<'store> {
         // that we are dealing with a simple transposition instead) the source side that matches
         // can never be the same as the target side that is mappped to
         while let Some(tsel) = tselbuffer.pop_front() {
+            // did we find (the first part of) this source text selection in one of the sides?
+            let mut found = false;
 
             // iterate over all the sides
             for (side_i, annotation) in via.annotations_in_targets(AnnotationDepth::One).enumerate()
@@ -228,6 +230,7 @@ impl<'store> Transposable<'store> for ResultTextSelectionSet<'store> {
                                     source_textselections.push(ResultTextSelection::Unbound(self.rootstore(), resource.as_ref() ,intersection.clone()));
                                 }
                             }
+                            found = true;
                             relative_offsets.push((refseqnr, relative_offset));
                             selectors_per_side[side_i].push(SelectorBuilder::TextSelector(
                                 resource.handle().into(),
@@ -240,6 +243,16 @@ impl<'store> Transposable<'store> for ResultTextSelectionSet<'store> {
             }
             if simple_transposition {
                 break;
+            }
+            if !found {
+                //(part of) a source text selection is not covered by the transposition: we can not transpose
+                return Err(StamError::TransposeError(
+                    format!(
+                        "Not all source fragments were found in the complex transposition {}, not enough to transpose",
+                        via.id().unwrap_or("(no-id)"),
+                    ),
+                    "",
+                ));
             }
         }
 
